@@ -5,6 +5,7 @@ import (
 	"go/constant"
 	"go/token"
 	"go/types"
+	"path/filepath"
 	"sort"
 	"strings"
 )
@@ -138,6 +139,10 @@ func (c *Ctx) oblige(name, kind, label string, reach, cond Term, pos token.Pos, 
 		// trivially discharged; still counted so that counts are stable? No: skip, it
 		// carries no proof content.
 		return nil
+	}
+	if pos.IsValid() && c.V != nil && c.V.P != nil {
+		p := c.V.P.Fset.Position(pos)
+		desc = fmt.Sprintf("%s [%s:%d]", desc, filepath.Base(p.Filename), p.Line)
 	}
 	o := &Obligation{Name: name, Kind: kind, Label: label, nfacts: len(c.facts), Reach: reach, Cond: cond, Pos: pos, Desc: desc}
 	c.obls = append(c.obls, o)
